@@ -176,6 +176,8 @@ def check_derived(res, facts):
                 rule.bad(tag, "no construction of the domain struct found", fn.loc)
                 continue
             size = C(rounding, A(1))
+            if head == R2 and fn is not None and "checked_next_power_of_two" in [t["f"].get("name") for _, t in fn.calls()]:
+                size = C("checked_next_power_of_two", A(1))      # same rounding, overflow-safe form
             if ctor == "new":
                 gen = C("get_root_of_unity", size)
                 want = {
@@ -229,7 +231,7 @@ def none_returns(fn):
 
 
 def check_bound(res, facts):
-    rule = res.rule("R-BOUND", "construction fails exactly on the subgroup-size condition; reported size is the rounding of the request", 4)
+    rule = res.rule("R-BOUND", "construction fails exactly on the subgroup-size condition; reported size is the rounding of the request", 8)
     # Radix2::new: a comparison trailing_zeros(size) > TWO_ADICITY whose true arm returns None before the struct is built
     fns = dom_fns(facts, R2)
     fn = fns.get("new")
@@ -237,7 +239,7 @@ def check_bound(res, facts):
     if fn is None:
         rule.bad(key, "anchor missing")
     else:
-        size = C("next_power_of_two", A(1))
+        size = C("checked_next_power_of_two" if "checked_next_power_of_two" in [t["f"].get("name") for _, t in fn.calls()] else "next_power_of_two", A(1))
         logs = [C("trailing_zeros", size), C("log2", size)]
         bb_agg, _ = domain_agg(fn, R2)
         nones = none_returns(fn)
@@ -265,6 +267,18 @@ def check_bound(res, facts):
                 if reaches_avoiding(fn, reject, nones, {bb_agg}) and not reaches_avoiding(fn, reject, {bb_agg}, set()) and reaches_avoiding(fn, accept, {bb_agg}, set()):
                     ok = True
         (rule.ok if ok else rule.bad)(key, "log2(size) > TWO_ADICITY returns None before construction" if ok else "no guard `log2(size) > F::TWO_ADICITY => None` dominates the construction (conditions seen: %s): a domain larger than the field's 2-adic subgroup could be built" % seen[:4], fn.loc)
+    # the rounding itself must not overflow (a request above 2^63 has no power of two in usize): sibling agreement with
+    # compute_size_of_domain, which uses the checked form
+    fn = fns.get("new")
+    key = "ark_poly|Radix2::new|rounding-overflow"
+    if fn is not None:
+        names = [t["f"].get("name") for _, t in fn.calls()]
+        if "next_power_of_two" in names and "checked_next_power_of_two" not in names:
+            rule.bad(key, "the request is rounded with usize::next_power_of_two, which overflows (panics in debug builds, yields 0 in release) for requests above 2^63, while compute_size_of_domain answers None for the same request: construction must fail with None", fn.loc)
+        elif "checked_next_power_of_two" in names:
+            rule.ok(key, "checked_next_power_of_two: an unrepresentable size yields None", fn.loc)
+        else:
+            rule.undecided(key, "rounding function not recognised (%s)" % names[:6], fn.loc)
     # compute_size_of_domain
     fn = fns.get("compute_size_of_domain")
     key = "ark_poly|Radix2::compute_size_of_domain"
@@ -280,6 +294,50 @@ def check_bound(res, facts):
             if got == (("bin", "Le", C("trailing_zeros", s), "TWO_ADICITY"), s):
                 good = True
         (rule.ok if good else rule.bad)(key, "(size.trailing_zeros() <= TWO_ADICITY).then_some(size), size = next power of two" if good else "size / bound expression is %s" % (tuple(show(g) for g in got) if got else None), fn.loc)
+    # Mixed radix: a field without a small subgroup makes construction fail with None: the configured base is tested
+    # (F::SMALL_SUBGROUP_BASE?) before anything unwraps it (best_mixed_domain_size unwraps both small-subgroup constants)
+    mfns = dom_fns(facts, MR)
+    for name in ("new", "compute_size_of_domain"):
+        fn = mfns.get(name)
+        key = "ark_poly|MixedRadix::%s|no-small-subgroup" % name
+        if fn is None:
+            rule.bad(key, "anchor missing")
+            continue
+        dom = DF.dominators(fn) if hasattr(DF, "dominators") else None
+        best = [bb for bb, t in fn.calls() if t["f"].get("name") == "best_mixed_domain_size"]
+        tests = [bi for bi, b in enumerate(fn.bbs) if b["t"]["k"] == "switch" and show(E(fn, b["t"]["o"])).find("SMALL_SUBGROUP_BASE") >= 0]
+        # `?` on the constant: a branch on its discriminant; accept discriminant reads of the constant as well
+        for bi, si, st_ in fn.stmts():
+            r = st_.get("r")
+            if r and r["k"] == "discr":
+                e = E(fn, {"c": place_parts(r["p"])[0]})
+                if show(e).find("SMALL_SUBGROUP_BASE") >= 0:
+                    tests.append(bi)
+        if not best:
+            rule.undecided(key, "size computation not found", fn.loc)
+        elif not tests:
+            rule.bad(key, "F::SMALL_SUBGROUP_BASE is never tested: a field without a small subgroup panics in best_mixed_domain_size", fn.loc)
+        elif all(any(_reaches_before(fn, tb, bb) for tb in tests) for bb in best):
+            rule.ok(key, "F::SMALL_SUBGROUP_BASE? precedes best_mixed_domain_size", fn.loc)
+        else:
+            rule.bad(key, "best_mixed_domain_size (which unwraps SMALL_SUBGROUP_BASE and SMALL_SUBGROUP_BASE_ADICITY) runs before the `F::SMALL_SUBGROUP_BASE?` test: for a field without a small subgroup construction panics instead of returning None (compute_size_of_domain tests first)", fn.loc)
+    # the doubling loop of best_mixed_domain_size must not overflow for large requests
+    bfn = [f for f in facts.fns(unit="ws", crate="ark_poly") if f.kind != "Closure" and f.id.endswith("mixed_radix::best_mixed_domain_size")]
+    key = "ark_poly|best_mixed_domain_size|doubling-overflow"
+    if not bfn:
+        rule.bad(key, "anchor missing")
+    else:
+        fn = bfn[0]
+        loops = DF.sccs(fn)
+        inloop = set().union(*loops) if loops else set()
+        raw = [bi for bi, si, st_ in fn.stmts() if bi in inloop and st_.get("r", {}).get("k") == "bin" and st_["r"]["op"].startswith("Mul") and 2 in (E(fn, st_["r"]["a"]), E(fn, st_["r"]["b"]))]
+        checked = [bb for bb, t in fn.calls() if bb in inloop and t["f"].get("name") in ("checked_mul", "saturating_mul", "checked_shl")]
+        if raw and not checked:
+            rule.bad(key, "the size is doubled with an unchecked `r *= 2` until it reaches the request: for requests above 2^63 (or 3*2^62, ...) the multiplication overflows (panic in debug builds; in release builds r wraps to 0 and the loop never terminates)", fn.loc)
+        elif checked:
+            rule.ok(key, "doubling is overflow-checked", fn.loc)
+        else:
+            rule.undecided(key, "doubling loop not recognised", fn.loc)
     # Mixed radix: new and compute_size_of_domain reject when size != q^a * 2^b
     fns = dom_fns(facts, MR)
     for name in ("new", "compute_size_of_domain"):
@@ -303,6 +361,24 @@ def check_bound(res, facts):
                 if (sides[0] == size and _shallow(c[3]) in [_shallow(p) for p in prods]) or (sides[1] == size and _shallow(c[2]) in [_shallow(p) for p in prods]):
                     found = True
         (rule.ok if found else rule.bad)(key, "size compared with q^adicity_q(size) * 2^adicity_2(size)" if found else "no comparison of the size with q^a * 2^b found (seen %s)" % seen[:3], fn.loc)
+
+
+def _reaches_before(fn, a, b):
+    """block a is executed before block b on every path to b (a dominates b), or a == b"""
+    if a == b:
+        return True
+    # b not reachable from entry when a is removed
+    succ = fn.succ()
+    seen, st = set(), [0]
+    while st:
+        x = st.pop()
+        if x in seen or x == a:
+            continue
+        seen.add(x)
+        if x == b:
+            return False
+        st.extend(succ[x])
+    return True
 
 
 def _shallow(t):
